@@ -234,6 +234,17 @@ def w_mzm(ctx, rng, i):
         # mismatched lengths / wrong types
         ctx.raises("mzm.errors", ValueError, D.MZM, x, np.zeros(n + int(rng.integers(1, 5))))
         ctx.raises("mzm.errors", ValueError, D.MZM, x, T.electrical_signal(np.zeros(n + 2)))
+        # every mismatch, in both directions and in every container: shorter drives, a multiple of the field length, and a drive of
+        # several samples on a ONE-sample field (only a one-sample DRIVE broadcasts)
+        for bad_len in {max(2, n - 1) if n > 2 else n + 3, 2 * n, n + 1}:
+            if bad_len != n and bad_len != 1:
+                d_bad = rng.normal(0, 1, bad_len)
+                ctx.raises("mzm.errors", ValueError, D.MZM, x, [d_bad, d_bad.tolist(), T.electrical_signal(d_bad)][int(rng.integers(3))])
+        x1 = make_field(rng, 1, n_pol, noise_kind if noise_kind != "sum_zero" else "random")
+        m_bad = int(rng.integers(2, 9))
+        d1 = rng.normal(0, 1, m_bad)
+        ctx.raises("mzm.errors", ValueError, D.MZM, x1, [d1, d1.tolist(), T.electrical_signal(d1)][int(rng.integers(3))])
+        ctx.raises("pm.errors", ValueError, D.PM, x1, d1)
         ctx.raises("mzm.errors", TypeError, D.MZM, T.electrical_signal(np.ones(n)), u)
         ctx.raises("mzm.errors", ValueError, D.MZM, x, u, pol=str(rng.choice(["z", "X", "xy", ""])))
     ctx.case(("mzm", n_pol, noise_kind, dkind, n, round(Vpi), round(loss / 5), round(ER / 10), pol), nontrivial=dkind != "const" or noise_kind != "none" or n_pol == 2,
